@@ -20,8 +20,13 @@ def _name(rng) -> str:
     # half of the generated instances share one of four names: different
     # instances with the same name in one process are ordinary (users name
     # their instances), and anything cached per name must still be right
-    if rng.integers(2):
+    k = int(rng.integers(6))
+    if k < 2:
         return "v" + str(int(rng.integers(4)))
+    if k == 2:
+        # ... or the name of a shipped instance (tables keyed by name)
+        return str(rng.choice(["a01", "a10", "beng01", "cl01_020_01",
+                               "cl10_100_10"]))
     return "v" + format(int(rng.integers(0, 1 << 30)), "x")
 
 
@@ -221,7 +226,20 @@ def make_real(desc: dict):
     # caller then re-uses that buffer: "the matrix will be copied"
     _ALIAS[0] += 1
     if _ALIAS[0] % 2 == 0 and time.time() - t0 < 0.05:
-        arr = np.array(desc["items"], dtype=inst.dtype)
+        # ... in the storage type itself, or in the narrowest signed /
+        # unsigned type that holds the item data (often narrower than what
+        # the instance needs for its packings)
+        mx = max(max(r) for r in desc["items"])
+        kind = (_ALIAS[0] // 2) % 3
+        if kind == 0:
+            dt = inst.dtype
+        elif kind == 1:
+            dt = next(t for t in (np.int8, np.int16, np.int32, np.int64)
+                      if mx <= np.iinfo(t).max)
+        else:
+            dt = next(t for t in (np.uint8, np.uint16, np.uint32, np.uint64)
+                      if mx <= np.iinfo(t).max)
+        arr = np.array(desc["items"], dtype=dt)
         if rng_free_choice(_ALIAS[0]):
             arr = np.asfortranarray(arr)
         inst = Instance(desc["name"], desc["W"], desc["H"], arr)
